@@ -55,8 +55,14 @@ def gen_cases(ctx):
                 for kk in list(d):
                     if isinstance(d[kk], int) and not isinstance(d[kk], bool) and kk in ("a", "k") and rng.random() < 0.5:
                         d[kk] = True if (d[kk] == 1 and rng.random() < 0.5) else float(d[kk])
+        if renamed and rng.random() < 0.3:
+            # ... and a right item may own an entry named like the LEFT key (hierarchy lookups: id / boss on both sides)
+            for d in right:
+                if rng.random() < 0.7:
+                    d[by[0][0]] = rng.choice([0, 1, 2, 3])
         op = rng.choice(JOINS + ["aggregate"])
-        cases.append({"op": op, "left": left, "right": right, "by": by})
+        # a (left, right) pair may be written as a tuple or as a two-element list, and also when both names are the same
+        cases.append({"op": op, "left": left, "right": right, "by": by, "spell": rng.choice(["tuple", "tuple", "list", "list", "pair-always"])})
     return cases
 
 
@@ -74,7 +80,8 @@ def state(lod, tagkey):
 def impl(case):
     op, by = case["op"], case["by"]
     a, b = build(case)
-    byarg = [x[0] if x[0] == x[1] else (x[0], x[1]) for x in by]
+    spell = case.get("spell", "tuple")
+    byarg = [x[0] if (x[0] == x[1] and spell != "pair-always") else ([x[0], x[1]] if spell == "list" else (x[0], x[1])) for x in by]
     res = {"pre_left": state(a, "lid"), "pre_right": state(b, "rid")}
     b_before = copy.deepcopy([dict(x) for x in b])
     buf = io.StringIO()
